@@ -9,10 +9,10 @@ package main
 
 import (
 	"encoding/json"
-	"regexp"
 	"fmt"
 	"os"
 	"path/filepath"
+	"regexp"
 	"sort"
 	"strconv"
 	"strings"
@@ -26,10 +26,10 @@ import (
 )
 
 type srvScenarioDef struct {
-	Name    string     `json:"name"`
-	Init    []string   `json:"init"`
-	Threads [][]string `json:"threads"`
-	FSPoints bool      `json:"fs_points"`
+	Name     string     `json:"name"`
+	Init     []string   `json:"init"`
+	Threads  [][]string `json:"threads"`
+	FSPoints bool       `json:"fs_points"`
 	// StateOnly: compare only the final state with the sequential outcomes
 	// (observations of multi-section operations may legitimately differ).
 	StateOnly bool `json:"state_only"`
